@@ -33,6 +33,7 @@ ASSUMPTIONS = [
 RULE = "one case = one feasible path of load_program for one (skeleton, label placement) with every numeric literal symbolic; spelling/decoration jobs enumerate a finite set of concrete texts"
 MAXTASKS = 40
 
+DECOY_NAMES = ["mul", "Or", "AND", "lw", "li", "nop", "mv", "la", "a0", "zero", "ecall", "x5", "beq", "jal", "sb", "div", "lui", "text", "data", "word"]
 SHAPES = ["add", "addi", "lw_imm", "sw_reg", "lui", "nop", "mv", "li", "la", "lw_var", "sb_var", "beq_label", "jal_label_off", "beq_num", "jal_num", "ecall", "lb_reg"]
 
 
@@ -82,7 +83,7 @@ def mk_line(e, shape, k):
     raise KeyError(shape)
 
 
-def h_prog(e, shapes, directives, via="load"):
+def h_prog(e, shapes, directives, via="load", decoy=None):
     """directives: 'none' (no segment directives; only if no variable is used), 'data_first', 'text_first';
     via: 'load' = RiscvSimulation.load_program, 'parser' = RiscvParser().parse(text, state) into a
     state that already holds a longer program (the parser API the repository's tests use)"""
@@ -104,6 +105,11 @@ def h_prog(e, shapes, directives, via="load"):
         items.append(it)
     if p == n:
         items.append(("label", "target"))
+    if decoy is not None:
+        # a second, unreferenced label on its own line whose name spells a mnemonic, a pseudo-
+        # instruction or a register: label names never influence what is assembled
+        d = e.choose(len(items) + 1)
+        items.insert(d, ("label", decoy))
     uses_var = any(s in ("la", "lw_var", "sb_var") for s in shapes)
     data = [("data", "pad", "byte", [e.int("pad", 0, 255)]), ("data", "var", "word", [e.int("w0", 0, 2**32 - 1), e.int("w1", 0, 2**32 - 1)])]
     if uses_var or directives != "none":
@@ -279,6 +285,9 @@ def jobs(tier, seed):
                 out.append({"label": "prog-%s-%s" % (".".join(sk), d), "harness": "prog", "args": {"shapes": sk, "directives": d}, "cost": 3 * n, "validate_every": 2})
     for sk in SHAPES:
         out.append({"label": "reparse-%s" % sk, "harness": "prog", "args": {"shapes": [sk], "directives": "none" if sk not in ("la", "lw_var", "sb_var") else "data_first", "via": "parser"}, "cost": 3, "validate_every": 2})
+    for i, nm in enumerate(DECOY_NAMES):
+        for sk in (["li", "beq_label"], ["add", "jal_label_off"], ["la", "beq_label"]) if tier != "quick" else ([["li", "beq_label"], ["add", "jal_label_off"], ["la", "beq_label"]][i % 3],):
+            out.append({"label": "decoy-%s-%s" % (nm, ".".join(sk)), "harness": "prog", "args": {"shapes": sk, "directives": "data_first" if "la" in sk else "none", "decoy": nm}, "cost": 6, "validate_every": 3})
     if tier == "thorough":
         for i, sk in enumerate(itertools.product(SHAPES, repeat=3)):
             if (i + seed) % 8 != 0:
